@@ -20,30 +20,44 @@ DRIVER = "Drivers/C03.lean"
 M64 = dsl.M64
 # classes of the unchanged tree, in order of precedence (shape predicates shared with Ebv.Gen.CondClass)
 CLASSES = ["sum-minus", "unary-in-place", "unary-32-in-64", "widen-in-place", "narrow-reg-in-64", "abs-32",
-           "u64-vs-negative-short"]
+           "const-left-32", "u64-vs-negative-short"]
 
 
 # ----------------------------------------------------------------------------- per-atom precondition and class refinement
-def narrow_leaf(E, v):
-    """the operand mentions a value of at most 4 bytes (variable format or w/sw view)"""
-    if isinstance(v, E.Register):
-        return not v.long
-    if isinstance(v, E.Constant):
-        return False
-    if isinstance(v, E.Unary):
-        return narrow_leaf(E, v.arg)
-    if isinstance(v, E.Memory):
-        return v.fmt not in "Qq"
-    return narrow_leaf(E, v.left) or narrow_leaf(E, v.right)
+narrow_leaf = dc.narrow_leaf
+
+
+def fits_s(v, w):
+    return -(1 << (w - 1)) <= v < (1 << (w - 1))
+
+
+def fits_u(v, w):
+    return 0 <= v < (1 << w)
+
+
+def theorem_pre(kind, info, a, b):
+    """mirror of Ebv.Gen.atomPre (the precondition C03_partial states per atom), shift counts aside"""
+    if kind == "bits":
+        z = a & b
+        w = 32 if info["short"] else 64
+        return (not info["widen"] or fits_s(a, 32)) and (fits_s(z, w) or fits_u(z, w))
+    if info["sg"]:
+        if info["short"]:
+            return fits_s(a, 32) and fits_s(b, 32)
+        if info["widen"]:
+            return fits_s(a, 32) and fits_s(b, 64)
+        return fits_s(a, 64) and fits_s(b, 64)
+    return fits_u(a, 64) and fits_u(b, 64)
 
 
 def atom_status(E, at, regs, varat):
-    """(inside precondition?, classes fired on this input) for one atom ('atom', kind, op, l, r)"""
+    """(inside the property's precondition?, classes fired on this input, inside the theorem's precondition?) for
+    one atom ('atom', kind, op, l, r)"""
     _, kind, op, l, r = at
     try:
         a, b = c01.eval_obj(E, l, regs, varat), c01.eval_obj(E, r, regs, varat)
     except (dsl.Outside, KeyError):
-        return False, set()
+        return False, set(), False
     info = dc.atom_info(E, l, r)
     W = 32 if (narrow_leaf(E, l) or narrow_leaf(E, r)) else 64
     if info["sg"]:
@@ -51,7 +65,12 @@ def atom_status(E, at, regs, varat):
     else:
         inside = all(0 <= v < (1 << W) for v in (a, b))
     shape = dc.atom_classes(E, l, r)
-    fired = set(shape) - {"u64-vs-negative-short", "narrow-reg-in-64", "widen-in-place"}
+    fired = set(shape) - {"u64-vs-negative-short", "narrow-reg-in-64", "widen-in-place", "const-left-32"}
+    if "const-left-32" in shape:
+        in32 = (lambda v: -(1 << 31) <= v < (1 << 31)) if info["sg"] else (lambda v: 0 <= v < (1 << 32))
+        if (dc.const_left_32(E, l, info["l_long"]) and not in32(a)) or \
+                (not info["r_imm"] and dc.const_left_32(E, r, info["r_width"]) and not in32(b)):
+            fired.add("const-left-32")
     if "u64-vs-negative-short" in shape and b < 0:
         fired.add("u64-vs-negative-short")
     if "widen-in-place" in shape:
@@ -75,7 +94,22 @@ def atom_status(E, at, regs, varat):
                     hit = True
         if hit:
             fired.add("narrow-reg-in-64")
-    return inside, fired
+    return inside, fired, theorem_pre(kind, info, a, b)
+
+
+def operands_pre(cj, regs, vals, fm):
+    """C01's precondition for the operand expressions of a JSON condition (values below abs fit the signed width, ...)"""
+    k = cj[0]
+    if k in ("not",):
+        return operands_pre(cj[1], regs, vals, fm)
+    if k in ("and", "or"):
+        return operands_pre(cj[1], regs, vals, fm) and operands_pre(cj[2], regs, vals, fm)
+    es = [cj[1]] if k == "truth" else [cj[2], cj[3]]
+
+    def narrow(l):
+        return l[0] in ("w", "sw") or (l[0] == "v" and dsl.FSIZE[fm[l[1]]] <= 4)
+    W = 32 if any(narrow(l) for e in es for l in dsl.leaves(e)) else 64
+    return all(dsl.pre_holds(e, regs, vals, W) for e in es)
 
 
 def cond_status(E, at, regs, varat):
@@ -85,10 +119,10 @@ def cond_status(E, at, regs, varat):
     if k == "not":
         return cond_status(E, at[1], regs, varat)
     if k in ("and", "or"):
-        i1, f1 = cond_status(E, at[1], regs, varat)
-        i2, f2 = cond_status(E, at[2], regs, varat)
-        return i1 and i2, f1 | f2
-    return False, set()
+        i1, f1, t1 = cond_status(E, at[1], regs, varat)
+        i2, f2, t2 = cond_status(E, at[2], regs, varat)
+        return i1 and i2, f1 | f2, t1 and t2
+    return False, set(), False
 
 
 # ----------------------------------------------------------------------------- inputs
@@ -129,7 +163,7 @@ def make_inputs(rng, prog, pool, mode):
 
 
 # ----------------------------------------------------------------------------- the oracle
-def check_program(ctx, prog, built, insns, inputs_list):
+def check_program(ctx, prog, built, insns, inputs_list, proved=False):
     E = built.E
     R = c01.Runner({"owned": prog["owned"], "vars": prog["vars"], "stmts": []}, built, insns)
     byloc = {(b, off): n for n, (b, off, f) in R.layout.items()}
@@ -143,14 +177,16 @@ def check_program(ctx, prog, built, insns, inputs_list):
         regview = dict(regs)
         regview.setdefault(10, interp.STACK_TOP)
         varbytes = dict(inp["vars"])
-        case = {"prog": prog, "inputs": inp}
+        case = {"prog": prog, "inputs": inp, "progOkC": proved}
         st = dc.RefState(regview, varbytes, R.fm)
-        seen = {"inside": True, "fired": set()}
+        seen = {"inside": True, "fired": set(), "thm": True}
 
         def on_cond(idx, cj, state):
             vals = state.vals()
             varat = lambda base, off, fmt: vals[byloc[(base, off)]]
-            inside, fired = cond_status(E, built.cobjs[idx][1], state.regs, varat)
+            inside, fired, thm = cond_status(E, built.cobjs[idx][1], state.regs, varat)
+            inside = inside and operands_pre(cj, state.regs, vals, R.fm)
+            seen["thm"] = seen["thm"] and thm
             seen["inside"] = seen["inside"] and inside
             seen["fired"] |= fired | built.cobjs[idx][2]
         try:
@@ -158,10 +194,14 @@ def check_program(ctx, prog, built, insns, inputs_list):
         except (dsl.Outside, KeyError, ValueError):
             status.append("outside-ref")
             continue
-        if not seen["inside"]:
+        in_thm = proved and seen["thm"]          # the program satisfies progOkC and every reached atom atomPre
+        if not seen["inside"] and not in_thm:
             status.append("outside")
             continue
         cls = next((c for c in CLASSES if c in seen["fired"]), None)
+        if in_thm:
+            cls = None                           # C03_partial says this run cannot fail: no class may excuse it
+            ctx.stats["oracle:inside-C03_partial"] += 1
         m = R.machine(code, regs, varbytes)
         fault = None
         try:
@@ -249,14 +289,18 @@ def run(ctx):
                 ctx.stats["cond-shape:" + t.split(" ")[0].lstrip("(")] += 1
     # (a) the tie: exact opcode lists, comparison object trees, refusals, shape-level classes
     model = ctx.drive(DRIVER, [p for _, p in progs], "emit")
+    proved = {}
     if model is not None:
-        for (fam, p), i, m in zip(progs, impl_lines, model):
+        for k, ((fam, p), i, m) in enumerate(zip(progs, impl_lines, model)):
+            m, _, flag = m.partition(" # ")
+            proved[id(p)] = flag == "P"
+            ctx.stats["model:progOkC" if flag == "P" else "model:outside-progOkC"] += 1
             ctx.agree("emitted instruction list, comparison objects and classes (real generator vs GenCond)", p, i, m)
     # (b) the property oracle on the real emitted code
     accepted.sort(key=lambda a: len(a[3]))
     n = 0
     for fam, p, built, res in accepted:
-        for st in check_program(ctx, p, built, res, inputs_for(ctx, p, ctx.n(6, 12))):
+        for st in check_program(ctx, p, built, res, inputs_for(ctx, p, ctx.n(6, 12)), proved.get(id(p), False)):
             ctx.stats["oracle:" + st] += 1
             n += 1
     ctx.extra["oracle_executions"] = n
@@ -271,17 +315,81 @@ def replay(ctx, case):
         internal_error(ctx, prog, res)
         return {"emit": res}
     inputs = [case["inputs"]] if "inputs" in case else inputs_for(ctx, prog, 12)
-    st = check_program(ctx, prog, built, res, inputs)
-    return {"emit": res, "status": st, "conditions": built.ctrees, "classes": sorted(dc.prog_classes(built))}
+    if "progOkC" in case:                     # recorded when the case was stored: no need to start the Lean driver
+        proved = bool(case["progOkC"])
+    else:
+        model = ctx.drive(DRIVER, [prog], "emit")
+        proved = bool(model) and model[0].endswith(" # P")
+    st = check_program(ctx, prog, built, res, inputs, proved)
+    return {"emit": res, "status": st, "conditions": built.ctrees, "classes": sorted(dc.prog_classes(built)),
+            "progOkC": proved}
 
 
-PROVED = []
-CORRESPONDED_NOT_PROVED = []
-THEOREMS = ["Ebv.C03.stub"]
-TRUSTED = []
-ASSUMPTIONS = []
-RULE = ""
-LEVEL_TEXT = ""
-LEVEL_NOTE = ""
+PROVED = [
+    "closed-segment lemmas (Ebpf.segRun_of_exec, SegRun.append, JumpRun.prepend/taken_append/fall_append/join/over, run_of_reach)",
+    "SimpleComparison.compare/target for all six operators: JMP vs JMP32 from l_long/r_long, the <<= 32; s>>= 32 widening, "
+    "immediate vs register form, release of the operand registers, owners; operands = C01's fragment at width None (calc_none)",
+    "AndComparison (JSET): positive sense, negative sense (JSET +1 / JMP), Else with the instruction splice (splice_shape, "
+    "withElse_bits_correct)",
+    "AndOrComparison (all four is_and x negative cases, left targets patched at the end of the comparison code or at the "
+    "final target), InvertComparison, Expression.__eq__ as ~(!=), Expression.__enter__ (!= 0)",
+    "Comparison.__enter__/__exit__/Else, Elser: with cond: / with cond as Else: ... with Else: ..., nested and sequenced with C01's "
+    "assignments (with_correct by induction on statements); placeholders as patched slots (Pend.patch, target_ok)",
+    "integer level: mtruth_eq_truth (signed/unsigned/mixed-width comparisons and bit tests = Python integers when the compared "
+    "values fit the width of the jump)",
+]
+CORRESPONDED_NOT_PROVED = [
+    "jumpIf(...) / target() / Else() used directly (statement forms jif, jifElse; the only way to reach the off+1 branch of "
+    "AndComparison.Else): modelled + corresponded + oracle",
+    "operands outside C01's proved fragment: abs, computed non-Sum addresses, // % >> (integer level); a compound 32-bit operand "
+    "(Binary, Negate) in a 64-bit unsigned comparison (atomFrag: only constants and unsigned 1/2/4-byte variables are known at 64 bits)",
+    "a register assigned in both branches and read after the join: accepted by the generator for a SimpleComparison condition; the "
+    "theorem's ownership tracking (KStmt.own) is conservative and treats it as not owned",
+    "surface level: the theorem speaks about the comparison objects the operator overloads built (elabC, corresponded); that e.g. "
+    "`5 < x` built as x.__gt__(5) has the truth value of the surface text is checked by the oracle (truth_ref on the JSON), not proved",
+    "bit fields (Memory.__ne__/__invert__ with a tuple format) and fixed-point comparisons: not modelled (dsl.py has no such variables)",
+]
+THEOREMS = [
+    "Ebv.Ebpf.run_of_reach", "Ebv.Ebpf.segRun_of_exec", "Ebv.Ebpf.SegRun.append", "Ebv.Ebpf.JumpRun.join",
+    "Ebv.Gen.JumpRun.over", "Ebv.Gen.calc_none", "Ebv.Gen.cmpCore_correct", "Ebv.Gen.target_ok", "Ebv.Gen.cond_correct",
+    "Ebv.Gen.splice_shape", "Ebv.Gen.withThen_correct", "Ebv.Gen.withElse_correct", "Ebv.Gen.withElse_bits_correct",
+    "Ebv.Gen.with_correct", "Ebv.Gen.mtruth_eq_truth", "Ebv.Gen.sem_semZ", "Ebv.Gen.emitS_compile",
+    "Ebv.C03.C03_core", "Ebv.C03.C03_partial", "Ebv.C03.C03_full_refuted",
+    "Ebv.C03.u64_vs_negative_short_refuted", "Ebv.C03.narrow_reg_in_64_refuted", "Ebv.C03.widen_in_place_refuted",
+    "Ebv.C03.unary_in_place_refuted", "Ebv.C03.unary_32_in_64_refuted", "Ebv.C03.const_left_32_refuted",
+]
+TRUSTED = ["hand-written model Ebv.Gen + Ebv.Model.GenCond of the comparison / with-block code generator (ebpfcat/ebpf.py: comparison, "
+           "SimpleComparison, AndComparison, AndOrComparison, InvertComparison, Comparison.__enter__/__exit__/Else, Elser, jumpIf), tied "
+           "by EXACT opcode-list equality with the real generator on generated statement programs (only as far as they reach)",
+           "instruction semantics Ebv.Ebpf (validated three-way by C01: Lean / harness/vh/interp.py / kernel)",
+           "harness/vh/dsl_cond.py (enters and leaves the real with-blocks while walking the JSON), harness/vh/interp.py",
+           "C01's theorems (calc_correct, setReg/setMem, evalBV_eq_evalZ) for operands and assignments"]
+ASSUMPTIONS = ["registers in `owned` are declared by assigning EBPF.owners before the first statement; array-map variables through r7",
+               "flat byte memory (bounds: C05); all jumps are forward, fuel = code length + 1",
+               "oracle precondition = property text: per comparison W = 32 if an operand mentions a variable of at most 4 bytes or a "
+               "w/sw register view, else 64; a signed comparison needs both values in the signed W-bit range, an unsigned one in "
+               "[0, 2^W); the theorem's precondition (atomPre) is weaker; runs that satisfy the theorem's hypotheses may not fail at all",
+               "marker assignments: res |= 1 << k, constant stores, r-view register assignments; registers are compared only if the "
+               "generator still owns them at the end"]
+RULE = ("statement programs = JSON (dsl_cond.py): the atom family (6 comparison operators x 13 leaf kinds x 13 leaf kinds, bit tests x "
+        "14 masks x 3 spellings, expressions as conditions; each x {with, with/Else, jumpIf, jumpIf/Else}), sampled (quick) or "
+        "enumerated (thorough); random trees: nesting <= 3, and/or/not depth <= 3, compound operands (+ - * | ^ & neg abs, int on "
+        "either side, Sum), ownership at joins; inputs = boundary values around every constant in the program (c-1, c, c+1, -c), "
+        "sign bits and width edges, small values, all-equal vectors; non-trivial = accepted with at least one condition")
+LEVEL_TEXT = ("Lean 4 proof by structural induction of a hand-written model of the comparison / with-block generator: closed-segment "
+              "lemmas for code with forward jumps; cond_correct (induction on the condition tree: the code of `compare negative`, "
+              "patched by `target` for any later position, falls through iff truth = not negative-sense, else reaches exactly that "
+              "position, no owned register or memory changed); with_correct (induction on statements incl. the AndComparison "
+              "splice): run(emit s) realises the structured big-step semantics; mtruth_eq_truth (jump decisions = Python integer "
+              "comparisons when the values fit); C03_partial in terms of Ebpf.run with the defect classes excluded by a decidable "
+              "predicate; C03_full_refuted and one kernel-evaluated witness per class. Tie: exact opcode-list equality real vs model "
+              "every run; oracle executes the real code; runs inside the theorem's hypotheses must not fail at all.")
+LEVEL_NOTE = ("trusted: Lean kernel + propext/Classical.choice/Quot.sound; model <-> Python only as far as generated programs reach; ISA "
+              "model validated, not verified. Proved: all six comparisons, bit tests incl. Else splice, & | ~ ==, with / with-Else, "
+              "nesting, sequencing, owners intersection (conservatively). Corresponded + oracle only (NOT proved): jumpIf/target/Else "
+              "used directly (off+1 branch), operands outside C01's fragment or compound 32-bit operands in unsigned 64-bit "
+              "comparisons, reads of registers assigned in both branches, surface-text truth of reflected operators, bit fields and "
+              "fixed point (not modelled). Known defect classes of the unchanged tree (each refuted in Lean): u64-vs-negative-short, "
+              "narrow-reg-in-64, widen-in-place, const-left-32, and C01's unary-in-place, unary-32-in-64, abs-32, sum-minus.")
 TECHNIQUE = "Lean 4 structural induction over condition trees and statements (compiler correctness) + exact opcode-list correspondence"
 DESIGN_REF = "§4 C03"
